@@ -12,6 +12,7 @@ import JxlModel.Proofs.Entropy.Header
 import JxlModel.Proofs.Entropy.Check
 import JxlModel.Proofs.Entropy.HeaderComp
 import JxlModel.Proofs.Entropy.HeaderNested
+import JxlModel.Proofs.Entropy.Final
 /-!
 # C04 — entropy decoding inverts the specified coding
 
@@ -21,12 +22,16 @@ named in their hypotheses; nothing is enumerated.
 
 Layers. `Decoder.parse` (header) and `begin → readSeq → finalize` (stream) are treated
 separately: the stream theorems are stated for `planDecoder p`, the decoder a resolved plan
-denotes (`C04_entropy_roundtrip_checked`: from the encoder's own Boolean `check`); the header is
-composed in `C04_header_roundtrip_partial` (nested cluster maps included) and the whole pipeline in
-`C04_entropy_roundtrip_partial`, both with ONE open hypothesis: that each histogram header reads
-back (`HistRTD`). That hypothesis is proved for the single/two-symbol/flat ANS forms and the
-one-symbol prefix form at the level of the literal layouts, not for the complex prefix form and
-the general ANS form; these are exercised on every run by the correspondence check.
+denotes (`C04_entropy_roundtrip_checked`: from the encoder's own Boolean `check`). Every histogram
+header the encoder writes reads back as the code it denotes: `C04_prefix_histogram_roundtrip`
+(simple forms with 1–4 symbols and the complex form: code-length code, repeat codes 16/17 with
+chaining, early exit when the code space is used up) and `C04_ans_histogram_roundtrip` (single,
+two-symbol, flat and the general form: log-count code, omitted position, RLE runs, mantissa
+bits). With these the header composition `C04_header_roundtrip` (nested cluster maps included) and
+the whole pipeline `C04_entropy_roundtrip` hold with the encoder's `check` as the ONLY hypothesis
+about the plan. The older `C04_header_roundtrip_partial` / `C04_entropy_roundtrip_partial` (same
+conclusions under the hypotheses `HeaderOKD`, `HistRTD`) are kept; both hypotheses are now derived
+from `check` (`headerOKD_of_check`, `histRTD_of_check` in `Proofs/Entropy/Final.lean`).
 
 Points where the implementation and my reading of the format differ (decided against the Spec
 layer; none is reachable by a stream of the reference encoder, so none is a finding):
@@ -177,15 +182,48 @@ theorem C04_prefix_header_roundtrip_partial :
   ⟨fun c r h1 h2 => readPrefixCount_write c h1 h2 r, fun l r h => readClcLen_write l h r,
    fun n s r h1 h2 h3 => parsePrefix_simple1 n s h1 h2 h3 r⟩
 
-/- `C04_prefix_header_roundtrip` (full statement, NOT proved):
-   ∀ count ≤ 2^15, ∀ lens (length = count, lengths ≤ 15, `kraft lens = 2^15` or exactly one
-   non-zero entry), ∀ form: `parsePrefix count (writePrefix count lens form ++ rest)
-   = .ok (codeOfLens lens, rest)`.
-   Missing: simple forms with 2–4 symbols (Kraft bookkeeping of `setLens`), and the complex form:
-   `readLens` over the run tokens of `clTokens` (chained repeat digits `chainDigits` against the
-   `*3-8` / `*7-16` extension rule) and the space accounting. Exercised by the correspondence run
-   (every form, alphabets up to 2^15); `writePrefix`/`parsePrefix` also agree on the Lean side in
-   that run (encoder-vs-model-decoder obligation). -/
+/-- **Complex prefix histogram.** For every alphabet size `2 ≤ count ≤ 2^15` and every complete
+length vector (`count` entries, lengths ≤ 15, Kraft sum exactly 1), with or without run-length
+coding of the lengths and for every requested `hskip`: `Histogram::parse(count)` on what
+`writeComplex` emits — `hskip`, the code-length-code lengths in `CODE_LENGTH_ORDER` until the
+space of 32 is used up, then the code-length symbols (literal lengths, repeat code 16 with 2 extra
+bits, zero-run code 17 with 3 extra bits, both chained by the `(old − 2)·4 / ·8 + extra + 3` rule)
+— returns the canonical code of `lens` and consumes exactly those bits. The code-length code is
+the one `huffLengths 5` builds from the token frequencies (proved complete for every frequency
+vector, `huffLengths_spec`), a single used token giving the zero-bit code. -/
+theorem C04_prefix_complex_roundtrip (count : Nat) (lens : List Nat) (rle : Bool) (req : Option Nat)
+    (h2 : 2 ≤ count) (hc15 : count ≤ 2 ^ 15) (hlen : lens.length = count)
+    (h15 : ∀ l ∈ lens, l ≤ 15) (hk : kraft lens = 2 ^ 15) (rest : Bits) :
+    parsePrefix count (writeComplex lens rle req ++ rest) = .ok (.table (sortedSyms lens), rest) :=
+  parsePrefix_complex count lens rle req h2 hc15 hlen h15 hk rest
+
+/-- six used symbols with lengths 2,2,3,3,3,3 in an alphabet of 8: not a simple shape; the run of
+four 3s is written as one literal and one repeat code 16 -/
+example : kraft [2, 2, 3, 3, 3, 3, 0, 0] = 2 ^ 15 ∧ simpleShape [2, 2, 3, 3, 3, 3, 0, 0] = none ∧
+    clTokens true [2, 2, 3, 3, 3, 3, 0, 0] = [(2, 0, 0), (2, 0, 0), (3, 0, 0), (16, 2, 0)] := by
+  decide
+
+/-- a zero run in the middle is written with code 17 -/
+example : clTokens true [1, 2, 0, 0, 0, 0, 0, 3, 3]
+    = [(1, 0, 0), (2, 0, 0), (17, 3, 2), (3, 0, 0), (3, 0, 0)] := by decide
+
+/-- **Prefix histogram header, every form.** For every prefix `CodeSpec` that passes the
+encoder's Boolean per-code check `codeOk` (alphabet size in `[1, 2^15]`, one length ≤ 15 per
+symbol, and either exactly one used symbol or Kraft sum 1) and every requested form
+(`.auto | .simple | .complex rle hskip`): `Histogram::parse(count)` on the header `writePrefix`
+emits — nothing for `count = 1`; the simple form for 1, 2, 3 or 4 used symbols of the shapes
+1 / 1,1 / 1,2,2 / 2,2,2,2 / 1,2,3,3 (tree-select bit); the complex form otherwise or on request —
+returns exactly the code the spec denotes (`CodeSpec.prefixCode`) and consumes exactly the
+header bits. -/
+theorem C04_prefix_histogram_roundtrip (count : Nat) (lens : List Nat) (form : PrefixForm)
+    (tokens : List Nat) (h : codeOk .prefix tokens (.lengths count lens form) = true) (rest : Bits) :
+    parsePrefix count (writePrefix count lens form ++ rest)
+      = .ok ((CodeSpec.lengths count lens form).prefixCode, rest) :=
+  prefix_histogram_rt count lens form tokens h rest
+
+example : codeOk .prefix [0, 5, 3] (.lengths 8 [2, 2, 3, 3, 3, 3, 0, 0] .auto) = true ∧
+    codeOk .prefix [1, 4] (.lengths 5 [3, 2, 0, 1, 3] .simple) = true ∧
+    codeOk .prefix [7] (.lengths 9 [1, 2, 0, 0, 0, 0, 0, 3, 3] (.complex true 2)) = true := by decide
 
 /-! ## ANS -/
 
@@ -284,14 +322,44 @@ theorem C04_ans_hist_roundtrip_partial :
    fun v r h => readU8_writeU8 v h r, fun c r h => readLogCount_write c h r,
    fun s r h => readShift_write s h r⟩
 
-/- `C04_ans_hist_roundtrip` (full statement, NOT proved for the general form):
-   ∀ la ∈ [5,8], ∀ d (≤ 2^la entries, Σ = 4096), ∀ form with `ansFormOk d form`:
-   `parseAnsDist la (writeAns d form ++ rest) = .ok (⟨d padded to 2^la, ansAlphabet d form⟩, rest)`.
-   Missing: the general form — `readLogCounts` over `writeGeneral`'s first part (runs found by
-   `findRuns`, omit position = first maximal log-count) and `readCounts` over the mantissa bits
-   (`mantissaBits shift code`, representability = `quantizeForShift shift d = d`), plus the link
-   from `writeAns … .single/.binary/.flat` to the literal layouts above. Exercised by the
-   correspondence run (all shifts 0..13, with and without runs, zero-probability tails). -/
+/-- **General ANS histogram.** For `5 ≤ la ≤ 8`, every distribution `d` with at most `2^la`
+entries, sum 4096 and at least two used symbols, every `shift ≤ 13` under which all entries but
+the omitted one are exactly representable (`ReprOK`; automatic for `shift = 13`, and what
+`quantizeForShift shift d = d` gives), with or without RLE: the general branch of
+`Histogram::parse` on what `writeGeneral` emits — shift field, alphabet size, one log-count per
+entry with marker 13 + length for a run (`findRuns`: runs are disjoint, non-adjacent, avoid the
+omitted position and the entry after it), then the mantissa bits — returns `d` padded with zeros
+to `2^la` and the alphabet size `generalAlphabet d`: the omitted position is recovered as the first
+maximal log-count, run entries repeat the previous value, the omitted entry is `4096 − Σ others`. -/
+theorem C04_ans_general_roundtrip (la : Nat) (hla : 5 ≤ la ∧ la ≤ 8) (d : List Nat) (shift : Nat)
+    (rle : Bool) (hlen : d.length ≤ 2 ^ la) (hsum : d.sum = 4096) (hused : 2 ≤ (usedSyms d).length)
+    (hshift : shift ≤ 13) (hq : ReprOK shift d) (rest : Bits) :
+    parseAnsDist la (writeGeneral d shift rle ++ rest)
+      = .ok (⟨d ++ List.replicate (2 ^ la - d.length) 0, generalAlphabet d⟩, rest) :=
+  parseAnsDist_general la hla d shift rle hlen hsum hused hshift hq rest
+
+/-- a distribution whose omitted position is 6 (not 0) and which has an RLE run `(start 1, length 5)` -/
+example : omitPos [16, 16, 16, 16, 16, 16, 4000] = 6 ∧
+    effectiveForm [16, 16, 16, 16, 16, 16, 4000] .auto = .general 13 true ∧
+    findRuns 6 #[16, 16, 16, 16, 16, 16, 4000] 7 8 0 [] = [(1, 5)] := by
+  refine ⟨by decide, by decide, by decide +kernel⟩
+
+/-- **ANS histogram header, every form.** For every ANS `CodeSpec` that passes the encoder's
+Boolean per-code check `codeOk` (`5 ≤ la ≤ 8`, at most `2^la` probabilities summing to 4096) and
+every requested form (`.auto | .single | .binary | .flat | .general shift rle`; a form that cannot
+express `d` exactly falls back to single / binary / `general 13` as `effectiveForm` says):
+`Histogram::parse(la)` on the header `writeAns` emits returns exactly the table the spec denotes
+(`CodeSpec.ansHist`: the distribution padded to `2^la`, the alphabet size of the form, and the
+alias table built from them) and consumes exactly the header bits. -/
+theorem C04_ans_histogram_roundtrip (la : Nat) (d : List Nat) (form : AnsForm) (tokens : List Nat)
+    (h : codeOk (.ans la) tokens (.dist d form) = true) (rest : Bits) :
+    parseAns la (writeAns d form ++ rest) = .ok ((CodeSpec.dist d form).ansHist la, rest) :=
+  ans_histogram_rt la d form tokens h rest
+
+example : codeOk (.ans 5) [0, 6] (.dist [16, 16, 16, 16, 16, 16, 4000] .auto) = true ∧
+    codeOk (.ans 8) [3] (.dist (quantizeForShift 3 [1000, 1000, 1000, 1000, 90, 6]) (.general 3 true)) = true ∧
+    ansFormOk (quantizeForShift 3 [1000, 1000, 1000, 1000, 90, 6]) (.general 3 true) = true := by
+  decide
 
 /-! ## LZ77 -/
 
@@ -486,24 +554,78 @@ theorem C04_entropy_roundtrip_partial (p : EntropyPlan) (mult : Nat) (items : Li
   rw [List.append_assoc]
   exact C04_header_roundtrip_partial p ok hrt _
 
-/- `C04_entropy_roundtrip` (full statement; the part NOT proved is the header composition):
-   ∀ resolved plan `p`, items, ctxs with `p.check items`, `CtxsFor items ctxs`:
-   `Decoder.parse p.numDist (encodeHeader p ++ encodeItems p items ++ rest) = .ok (d, s)` with
-   `d = planDecoder p` up to unused trailing configs/codes, and then `begin/readSeq/finalize` as in
-   the two theorems above.
-   Proved: everything after the header (`C04_entropy_stream_plain`, `C04_lz77_expand`), under
-   the semantic hypotheses `ToksOK`/`ItemsOK`/`CfgOK` instead of the Boolean `p.check`; and the
-   header fields one by one (`C04_lz77_header_roundtrip`, `C04_clusters_simple_roundtrip`,
-   `C04_mtf_inv`, `C04_clusters_hole_check`, `C04_integer_config_roundtrip`,
-   `C04_prefix_header_roundtrip_partial`, `C04_ans_hist_roundtrip_partial`, `C04_alias_bijection`).
-   `C04_entropy_roundtrip_checked` replaces those hypotheses by `p.check items = true`;
-   `C04_header_roundtrip_partial` composes the whole header (nested cluster maps included) given
-   the per-histogram round trips, and `C04_entropy_roundtrip_partial` is the full statement with
-   that single hypothesis left (`HistRTD`).
-   Missing: the two full per-histogram header theorems above (complex prefix form, general ANS
-   form), and deriving `HeaderOKD` from `check` (it is a sub-conjunction of it).
-   The composed statement is what the correspondence run executes 3000+ times per run on both the
-   model decoder and jxl-oxide. -/
+/-- **Header, from the encoder's check alone.** For every plan the reference encoder accepts for
+some parse (`p.check items = true`; `check` is executable): `Decoder::parse(num_dist)` on
+`encodeHeader p ++ rest` succeeds, consumes exactly the header, and returns the decoder the plan
+denotes — LZ77 parameters, cluster map (simple, or entropy coded by a nested decoder, optionally
+move-to-front, up to the nesting depth the format allows), coder kind, every `IntegerConfig`,
+every histogram. `check` only asks for *at least* one config and one code per cluster; the surplus
+ones are never written, so the decoder is that of the trimmed plan `trimD planDepth p`, which is
+`planDecoder p` itself when the lists have exactly one entry per cluster. -/
+theorem C04_header_roundtrip (p : EntropyPlan) (items : List Item) (h : p.check items = true)
+    (rest : Bits) :
+    Decoder.parse p.numDist (encodeHeader p ++ rest) = .ok (planDecoder (trimD planDepth p), rest) ∧
+    (p.configs.length = p.numClusters ∧ p.codes.length = p.numClusters →
+      planDecoder (trimD planDepth p) = planDecoder p) :=
+  ⟨header_roundtrip_of_check p items h rest, planDecoder_trimD planDepth p⟩
+
+/-- a prefix plan whose code needs the complex form (six used symbols, a repeat code) -/
+def demoComplexPlan : EntropyPlan :=
+  { numDist := 1, clusterMap := [0], configs := [⟨4, 1, 1⟩],
+    codes := [.lengths 8 [2, 2, 3, 3, 3, 3, 0, 0] .auto] }
+
+/-- an ANS plan whose histogram needs the general form with an RLE run and omitted position 6 -/
+def demoAnsPlan : EntropyPlan :=
+  { numDist := 1, clusterMap := [0], coder := .ans 5, configs := [⟨4, 1, 1⟩],
+    codes := [.dist [16, 16, 16, 16, 16, 16, 4000] .auto] }
+
+/-- nested plan for a cluster map, with a surplus code -/
+def demoInnerPlan : EntropyPlan :=
+  { numDist := 1, clusterMap := [0], configs := [⟨4, 1, 1⟩],
+    codes := [.lengths 2 [1, 1] .auto, .lengths 2 [1, 1] .auto] }
+
+/-- three contexts, two clusters, the cluster map entropy coded with move-to-front by a nested plan;
+a surplus config at the top level and a surplus code in the nested plan (trimmed away) -/
+def demoNestedPlan : EntropyPlan :=
+  { numDist := 3, clusterMap := [0, 1, 0], clusterInner := some (true, demoInnerPlan),
+    configs := [⟨4, 1, 1⟩, ⟨4, 1, 1⟩, ⟨4, 1, 1⟩],
+    codes := [.lengths 8 [2, 2, 3, 3, 3, 3, 0, 0] .auto,
+              .lengths 8 [2, 2, 3, 3, 3, 3, 0, 0] (.complex false 2)] }
+
+example : demoComplexPlan.check [.lit 0 0, .lit 0 5, .lit 0 3] = true ∧
+    demoAnsPlan.check [.lit 0 0, .lit 0 6, .lit 0 6] = true ∧
+    demoNestedPlan.check [.lit 0 0, .lit 1 5, .lit 2 3] = true := by
+  refine ⟨by decide +kernel, by decide +kernel, by decide +kernel⟩
+
+/-- **Top level, everything composed, no open hypothesis.** For every plan the reference encoder
+accepts (`p.check items = true`), every parse `items` (no copy of 2^32 values or more), every
+multiplier and every context list with one context per output value: `Decoder::parse(num_dist)`
+on `header ++ stream ++ rest` succeeds, and with the decoder it returns `begin`, one
+`read_varint_with_multiplier` per context and `finalize` return exactly the encoded sequence
+(LZ77-expanded), leave exactly `rest`, and pass the ANS final-state check. (Same conclusion as
+`C04_entropy_roundtrip_partial`; its hypotheses `HeaderOKD` and `HistRTD` are discharged by
+`C04_prefix_histogram_roundtrip`, `C04_ans_histogram_roundtrip` and `check` itself.) -/
+theorem C04_entropy_roundtrip (p : EntropyPlan) (mult : Nat) (items : List Item)
+    (ctxs : List Nat) (rest : Bits) (hctx : CtxsFor items ctxs) (h : p.check items = true)
+    (hlen : ∀ i ∈ items, match i with | .copy _ len _ => len < 2 ^ 32 | .lit _ _ => True) :
+    ∃ d s st0 s0 st1,
+      Decoder.parse p.numDist (encodeHeader p ++ encodeItems p items ++ rest) = .ok (d, s) ∧
+      d.begin {} s = .ok (st0, s0) ∧
+      d.readSeq mult ctxs st0 s0 = .ok ((expandItems mult items, st1), rest) ∧
+      d.finalize st1 = .ok () := by
+  obtain ⟨st0, s0, st1, hp, hb, hseq, hfin⟩ :=
+    entropy_roundtrip_of_check p mult items ctxs rest hctx h hlen
+  exact ⟨_, _, st0, s0, st1, hp, hb, hseq, hfin⟩
+
+example : CtxsFor [Item.lit 0 0, .lit 1 5, .lit 2 3] [0, 1, 2] := ⟨_, rfl, _, rfl, _, rfl, rfl⟩
+
+/- What is still NOT covered by C04 (see also the notes at the top):
+   * `C04_prefix_table_eq_canonical` — the two-level bit-reversed lookup tables of
+     `Histogram::with_code_lengths` are represented by their Spec (`PrefixCode.table`, interval
+     decoding); the table construction itself is not modelled. Tie: the correspondence run.
+   * The theorems are about the Lean model of `jxl_coding`; model and crate are tied by the
+     differential run (`tools/props/c04.py`), which also replays the reference encoder's streams
+     through the real decoder. -/
 
 example : (prefixPlan 2 [.lit 0 5, .lit 1 300, .lit 0 5]).check [.lit 0 5, .lit 1 300, .lit 0 5] = true := by
   decide +kernel
